@@ -80,6 +80,10 @@ def famExtract (kv : KV) : String × String :=
     | .error _ => (fs1.map (·.1)).all fun p => lookup fs1 p == lookup fs0 p
     | .ok root => ((fs1.map (·.1)).filter fun p => !(root.isPrefixOf p)).all fun p => lookup fs1 p == lookup fs0 p
   let r := match res with | .ok _ => "ok" | .error _ => "err"
-  (s!"r={r} tree={listing sb fs1} outside={if outside then "same" else "changed"}", "outside=same")
+  -- C18 lines carry the tree the extraction must reproduce
+  let spec := match KV.get kv "want" with
+    | some w => s!"r=ok tree={w} outside=same"
+    | none => "outside=same"
+  (s!"r={r} tree={listing sb fs1} outside={if outside then "same" else "changed"}", spec)
 
 end Car.Driver
